@@ -37,7 +37,9 @@ Theorem C09_prefix_form : forall o st s p pre,
 Proof. exact prefix_form. Qed.
 Print Assumptions C09_prefix_form.
 
-(* "every class selector": full statement refuted by `.a:not(:is(.b .c))` (D13) *)
+(* "every class selector and nothing else", whole sheet: still refuted, now by D25
+   (`@import 'a' layer(b.t)` prefixes the layer name); the former witness `.a:not(:is(.b .c))` (D13)
+   satisfies the statement since fix f5fc923 (Example prefix_exact_former_d13) *)
 Theorem C09_prefix_exact_refuted : ~ C09_prefix_exact_full.
 Proof. exact prefix_exact_refuted. Qed.
 Print Assumptions C09_prefix_exact_refuted.
